@@ -462,8 +462,91 @@ def run(P, rep, tier):
                    '%s used in the %s-bit branch' % (r[1].split('.')[1], want))
     rep.floor('C26.BUFSEL', 12)
 
+    # ---------------- VARIANT: the statistics routine picks the 8-bit or the 16-bit reconstruction by a predicate; the in-loop
+    # filter kernels, which write the final reconstruction, pick the variant they write by a predicate too.  Every configuration
+    # member the writers consult must be consulted by the reader: otherwise there is a configuration in which the filters write one
+    # variant and the statistic is taken on the other (never written) one.
+    CFG = 'EbSvtAv1EncConfiguration.'
+    V16 = [k for k, v in list(REF.items()) + list(REC.items()) if v == 16]
+
+    def _variant_members(g):
+        out = set()
+        n = 0
+        for ev in g.events(('st', 'decl', 'call')):
+            e = ev.get('e')
+            if e is None or not any(x[0] == 'm' and x[1] in V16 for x in subexprs(e)):
+                continue
+            for kind, cond, line in g.ctl_chain(ev):
+                if kind in ('if', 'else') and cond is not None:
+                    ms = {m for m in cond_members(g, cond) if m.startswith(CFG)}
+                    if ms:
+                        n += 1
+                        out |= ms
+            if e is not None:
+                for x in subexprs(e):
+                    if x[0] == 'q' and any(y[0] == 'm' and y[1] in V16 for y in subexprs(x)):
+                        ms = {m for m in cond_members(g, x[1]) if m.startswith(CFG)}
+                        if ms:
+                            n += 1
+                            out |= ms
+        return out, n
+    writers = [g for g in P.fns if g.lib == 'Encoder' and not g.nocfg and g in C.runtime and any(True for _ in g.calls(APPLY))]
+    mw, nw = set(), 0
+    for g in writers:
+        ms, n = _variant_members(g)
+        mw |= ms
+        nw += n
+    if nw < 3:
+        raise AnalysisBroken('only %d variant selections found in the in-loop filter kernels' % nw)
+    for g in [psnr] + [h for h in [P.fn('ssim_calculations')] if h is not None and not h.nocfg]:
+        mr, nr = _variant_members(g)
+        if not nr:
+            raise AnalysisBroken('%s: no selection of the 16-bit reconstruction found' % g.name)
+        miss = sorted(mw - mr)
+        rep.ob('C26.VARIANT', '%s/variant-predicate' % g.name, not miss, g.loc(),
+               ('%s selects the reconstruction variant by %s, as the filter kernels do' % (g.name, sorted(x[len(CFG):] for x in mr))) if not miss else
+               ('the in-loop filter kernels write the 16-bit reconstruction under %s, %s reads it under %s only: with %s set and 8-bit input the filters write the 16-bit buffers and the statistic is computed on the 8-bit ones, which nothing wrote' %
+                (sorted(x[len(CFG):] for x in mw), g.name, sorted(x[len(CFG):] for x in mr), ', '.join(x[len(CFG):] for x in miss))))
+    rep.floor('C26.VARIANT', 2)
+
     # ---------------- SOURCE
     TF = 'PictureParentControlSet.temporal_filtering_on'
+    from engine.own import alloc_sites as _allocs, release_sites as _rels
+
+    def _lit0(x):
+        x = strip(x)
+        while x is not None and x[0] == 'k':
+            x = strip(x[-1])
+        return x is not None and x[0] == 'l' and x[1] == 0
+
+    def _live_release(g, rv):
+        """a release statement that can execute: not under a test of a parameter to which every call site passes 0"""
+        pn = [n for n, t in g.params]
+        for kind, cond, line in g.ctl_chain(rv):
+            if kind != 'if' or cond is None:
+                continue
+            for x in subexprs(cond):
+                if x[0] == 'v' and x[1] in pn:
+                    idx = pn.index(x[1])
+                    sites = P.call_sites(g.name)
+                    if sites and all(len(cv['e'][2]) > idx and _lit0(cv['e'][2][idx]) for cf, cv in sites):
+                        return False
+        return True
+
+    def _per_picture(member):
+        """a run-time allocated member whose life ends with the picture: pipeline code releases it (a release that can
+        execute) and does not keep an earlier allocation (no allocation under a test of the member itself)"""
+        keeps, rel = [], []
+        for g in P.fns:
+            if g.lib != 'Encoder' or g.nocfg or g not in C.runtime:
+                continue
+            for av, lf, kind, lvl, mac, t in _allocs(g):
+                if lf == member and any(c is not None and any(x[0] == 'm' and x[1] == member for x in subexprs(c)) for k, c, l in g.ctl_chain(av)):
+                    keeps.append((g, av))
+            for rv, lf, kind, lvl, mac, t in _rels(g):
+                if lf == member and g not in C.deinit and _live_release(g, rv):
+                    rel.append((g, rv))
+        return bool(rel) and not keeps, keeps, rel
     nsrc = 0
     for ev in psnr.events(('st', 'decl')):
         e = ev.get('e')
@@ -476,19 +559,33 @@ def run(P, rep, tier):
         if not (saved or direct):
             continue
         arm = None
+        via = None
         for kind, cond, line in psnr.ctl_chain(ev):
-            if kind in ('if', 'else') and cond is not None and any(x[0] == 'm' and x[1] == TF for x in subexprs(cond)):
-                c = strip(cond)
-                neg = (c[0] == 'u' and c[1] == '!') or (c[0] == 'b' and c[1] == '==' and pstr(strip(c[3])) in ('0', 'EB_FALSE'))
-                arm = (kind == 'if') != neg
-                break
+            if kind not in ('if', 'else') or cond is None:
+                continue
+            mem = [x[1] for x in subexprs(cond) if x[0] == 'm' and (x[1] == TF or x[1] in IDX_ARRAYS)]
+            if not mem:
+                continue
+            c = strip(cond)
+            neg = (c[0] == 'u' and c[1] == '!') or (c[0] == 'b' and c[1] == '==' and pstr(strip(c[3])) in ('0', 'EB_FALSE', 'NULL', '((void *)0)'))
+            arm = (kind == 'if') != neg
+            via = mem[0]
+            break
         if arm is None:
             continue
         nsrc += 1
         ok = (saved and arm) or (direct and not arm)
+        why = None
+        if ok and via != TF:
+            # selected by the presence of the saved copy: only a predicate of *this* picture if the copy does not outlive it
+            pp, keeps, rel = _per_picture(via)
+            if not pp:
+                ok = False
+                why = ('the source is selected by the presence of %s, but that buffer outlives the picture (%s): a recycled picture object that once carried a filtered picture keeps the old copy, and the statistic of a later unfiltered picture is taken against it' %
+                       (via.split('.')[1], 'allocated only when absent in %s' % keeps[0][0].name if keeps else 'no pipeline code releases it any more'))
         rep.ob('C26.SOURCE', 'psnr_calculations/src@%s' % ev.get('l'), ok, psnr.loc(ev),
                ('%s when temporal filtering %s' % ('saved unfiltered plane' if saved else 'input picture plane', 'replaced the source' if arm else 'is off')) if ok else
-               ('the %s is compared although temporal filtering is %s: the statistic is taken against %s' %
+               (why or 'the %s is compared although temporal filtering is %s: the statistic is taken against %s' %
                 ('saved copy' if saved else 'in-place (filtered) input picture', 'on' if arm else 'off', 'a stale buffer' if saved else 'the filtered picture, not the submitted one')))
     # the input picture is the unscaled enhanced picture
     inp = [ev for ev in psnr.events(('decl',)) if ev['n'] == 'input_picture_ptr' and ev.get('e') is not None]
